@@ -571,6 +571,10 @@ class Projection:
                 dfuk += deriva.inner(deriva)
                 dfuk = dfuk if abs(dfuk) > 1e-6 else 1e-6
                 newu = uk - fuk / dfuk
+                if isinstance(newu, Fraction):
+                    # Exact iterates square their number of digits at every
+                    # step: keep them of bounded size (far below tolerances)
+                    newu = newu.limit_denominator(10**9)
                 usample[k] = min(one, max(newu, zero))
             usample = list(set(usample))
             if len(usample) == 1:
